@@ -1107,6 +1107,32 @@ ares_status_t ares_dns_write_buf(const ares_dns_record_t *dnsrec,
 
   orig_len = ares_buf_len(buf);
 
+  /* Name compression pointers are offsets from the start of the DNS message,
+   * and the name writer derives them from the current buffer length.  If the
+   * buffer already holds data (a TCP length prefix, earlier queued messages),
+   * build the message in a scratch buffer so the offsets are message-relative,
+   * then append it. */
+  if (orig_len != 0) {
+    ares_buf_t          *msg = ares_buf_create();
+    const unsigned char *data;
+    size_t               data_len = 0;
+
+    if (msg == NULL) {
+      return ARES_ENOMEM; /* LCOV_EXCL_LINE: OutOfMemory */
+    }
+
+    status = ares_dns_write_buf(dnsrec, msg);
+    if (status == ARES_SUCCESS) {
+      data   = ares_buf_peek(msg, &data_len);
+      status = ares_buf_append(buf, data, data_len);
+    }
+    ares_buf_destroy(msg);
+    if (status != ARES_SUCCESS) {
+      ares_buf_set_length(buf, orig_len);
+    }
+    return status;
+  }
+
   status = ares_dns_write_header(dnsrec, buf);
   if (status != ARES_SUCCESS) {
     goto done;
